@@ -14,7 +14,7 @@ int verif_asprintf(char **strp, const char *fmt, struct varg a, struct varg b);
 #define VARG(x) ((struct varg){                                                     \
   _Generic((x), int: VK_INT, unsigned: VK_UINT, long: VK_LONG, unsigned long: VK_ULONG, \
                 long long: VK_LONG, unsigned long long: VK_ULONG,                    \
-                float: VK_DOUBLE, double: VK_DOUBLE, char *: VK_STR, const char *: VK_STR), \
+                float: VK_DOUBLE, double: VK_DOUBLE, char *: VK_STR, const char *: VK_STR, char: VK_INT), \
   _Generic((x), char *: 0, const char *: 0, float: 0, double: 0, default: (x)),       \
   _Generic((x), char *: 0.0, const char *: 0.0, default: (x)),                        \
   _Generic((x), char *: (x), const char *: (x), default: (const char *)0) })
@@ -25,3 +25,13 @@ int verif_asprintf(char **strp, const char *fmt, struct varg a, struct varg b);
 #define verif_asprintf2(strp, fmt, a, b) verif_asprintf(strp, fmt, VARG(a), VARG(b))
 #define asprintf(strp, ...) \
   VERIF_PICK(__VA_ARGS__, verif_asprintf2, verif_asprintf1, verif_asprintf0)(strp, __VA_ARGS__)
+
+/* the same for snprintf(buf, size, fmt, a[, b[, c]]) */
+int verif_snprintf(char *buf, size_t size, const char *fmt, struct varg a, struct varg b, struct varg c);
+#define VERIF_PICK4(_1, _2, _3, _4, NAME, ...) NAME
+#define verif_snprintf0(buf, size, fmt) verif_snprintf(buf, size, fmt, VARG_NONE, VARG_NONE, VARG_NONE)
+#define verif_snprintf1(buf, size, fmt, a) verif_snprintf(buf, size, fmt, VARG(a), VARG_NONE, VARG_NONE)
+#define verif_snprintf2(buf, size, fmt, a, b) verif_snprintf(buf, size, fmt, VARG(a), VARG(b), VARG_NONE)
+#define verif_snprintf3(buf, size, fmt, a, b, c) verif_snprintf(buf, size, fmt, VARG(a), VARG(b), VARG(c))
+#define snprintf(buf, size, ...) \
+  VERIF_PICK4(__VA_ARGS__, verif_snprintf3, verif_snprintf2, verif_snprintf1, verif_snprintf0)(buf, size, __VA_ARGS__)
